@@ -6,6 +6,7 @@ import rvgen
 import impl as implmod
 
 PROP = "C14"
+CONSTS = ['ops', 'asm']          # constant tables of the models this property depends on
 RULE = ("every mnemonic of the instruction map except FENCE with random register numbers (all 32) and boundary + random "
         "immediates of the instruction's width (B/J even), placed at random instruction addresses (pc-relative forms); the printed "
         "form of the real instruction object is assembled by the real assembler at the same address; plus listing fix-points of "
